@@ -478,6 +478,22 @@ def legacy_structs():
     return {m.name: struct_of(MTM().from_legacy(m)) for m in TokenizationMode}
 
 
+_USE_MAZE = []
+
+
+def _use_maze():
+    """a small solved maze with a fork and a turn, to use tokenizers on"""
+    if not _USE_MAZE:
+        import numpy as np
+        from maze_dataset.maze import SolvedMaze
+
+        conn = np.zeros((2, 3, 3), dtype=bool)
+        for d, i, j in [(1, 0, 0), (1, 0, 1), (0, 0, 1), (0, 1, 1), (1, 1, 1), (0, 0, 0)]:
+            conn[d, i, j] = True
+        _USE_MAZE.append(SolvedMaze(connection_list=conn, solution=np.array([[0, 0], [0, 1], [1, 1], [1, 2]])))
+    return _USE_MAZE[0]
+
+
 def check_tokenizers(res, structs, do_saveload=True, expect_valid=True):
     """per-tokenizer checks on real objects built from structures; returns [(name, hash, hash_int)] aligned with structs"""
     M = MTM()
@@ -503,6 +519,20 @@ def check_tokenizers(res, structs, do_saveload=True, expect_valid=True):
         # equal objects: equal name and hashes
         if not (t == t2) or t2.name != name or hash(t2) != h or t2.hash_int() != hi or t2.hash_b64() != t.hash_b64():
             res.fail("C15:hash-unstable", f"a reconstructed equal tokenizer differs in ==/name/hash: {short(s)}", inp, [t2.name, hash(t2)])
+        # multi-step: identity does not change by USING the tokenizer (tokenizing a solved maze) - name / hashes stay those of an equal unused one
+        try:
+            _use_maze().as_tokens(t)
+        except Exception:  # noqa: BLE001  (whether tokenization works is C06's business)
+            pass
+        else:
+            if t.name != name or hash(t) != h or t.hash_int() != hi or not (t == t2) or t2.name != t.name:
+                res.fail("C15:identity-changes-by-use", f"after tokenizing a maze the tokenizer's name / hash differ from those of an equal unused tokenizer: {short(s)}: {t.name!r} vs {name!r}", inp, [t.name, hash(t)])
+            try:
+                back_used = M.load(t.serialize())
+                if back_used.name != name or not (back_used == t2):
+                    res.fail("C15:identity-changes-by-use", f"a used tokenizer saved and loaded comes back with another name: {short(s)}", inp, back_used.name)
+            except Exception as e:  # noqa: BLE001
+                res.fail("C15:save-load", f"load(serialize(used tokenizer)) raised {type(e).__name__}: {str(e)[:160]}", inp, repr(e))
         # save / load
         if do_saveload:
             try:
